@@ -202,6 +202,24 @@ def _gen():
     b = find_fn(src, "unwrap_rtx_packet")[2]
     put("RTX_OSN_LEN", _one(b, r"if\s+rtx\.payload\.len\(\)\s*<\s*NUM\s*\{\s*return\s+None", "rtx OSN guard"), "unwrap_rtx_packet OSN length guard", RTX)
 
+    # ------------------------------------------------------------------ loop progress statements (no-hang side of the models)
+    src = strip_comments(read(ICE))
+    b = find_fn(src, "from_sdp", "IceCandidate")[2]
+    _has(b, r"if\s+parts\.len\(\)\s*<\s*8\s*\{\s*bail!", "from_sdp minimum token count")
+    _has(b, r"if\s+i\s*\+\s*1\s*>=\s*parts\.len\(\)\s*\{\s*break\s+None", "from_sdp tcptype loop exit")
+    _has(b, r"_\s*=>\s*\{\s*i\s*\+=\s*2\s*;\s*\}", "from_sdp tcptype loop step")
+    _has(b, r"while\s+i\s*\+\s*1\s*<\s*parts\.len\(\)\s*\{", "from_sdp raddr/rport loop guard")
+    _has(b, r"_\s*=>\s*\{\}\s*\}\s*i\s*\+=\s*2\s*;", "from_sdp raddr/rport loop step")
+    src = strip_comments(read(H264))
+    b = find_fn(src, "push", "Depacketizer for H264Depacketizer")[2]
+    _has(b, r"offset\s*\+=\s*2\s*;", "h264 STAP-A length step")
+    _has(b, r"offset\s*\+=\s*nal_len\s*;", "h264 STAP-A data step")
+    src = strip_comments(read(UDPTL))
+    b = find_fn(src, "recv", "UdtlTransport")[2]
+    _has(b, r"pos\s*\+=\s*2\s*;", "udptl length steps", 3)
+    _has(b, r"pos\s*\+=\s*r_len\s*;", "udptl redundancy data step")
+    _has(b, r"pos\s*\+=\s*primary_len\s*;", "udptl primary data step")
+
     # ------------------------------------------------------------------ a=mid arithmetic
     src = strip_comments(read(PC))
     b = find_fn(src, "set_remote_description")[2]
